@@ -342,7 +342,7 @@ class StateAnalysis:
         notes = []
         for n in g.nodes:
             binds = [a for a, k in attr_writes(n, fi.selfname) if a == attr and k == "bind"]
-            via_call = any(attr in self.summary(t) for _, t in fi.calls.get(n.id, []))
+            via_call = any(attr in self.summary(t) or self.refreshes(t, attr, dep) for _, t in fi.calls.get(n.id, []))
             if not binds and not via_call:
                 continue
             write_nodes.add(n.id)
@@ -390,6 +390,55 @@ class StateAnalysis:
         self.bad_guards = [(h, w) for h, w in notes if h.id in on_path] or notes
         why = "; ".join(f"guard `{h.text()[:70]}`: {w}" for h, w in self.bad_guards[:3]) or "no guard at all on a write-free path"
         return False, f"value depends on {sorted(x[1] for x in dep)}; {why}"
+
+    def refreshes(self, g_func, attr, dep, _stack=None):
+        """A helper 'refreshes or validates' attr if every path through it either writes attr or crosses the skip edge of a
+        key-vs-cache guard (J2) protecting such a write: calling it has the same standing as the guarded refresh written inline."""
+        key = (g_func, attr)
+        memo = self.__dict__.setdefault("_refresh_memo", {})
+        if key in memo:
+            return memo[key]
+        memo[key] = False
+        fi = self.info(g_func)
+        g = fi.cfg
+        write_nodes, removed = set(), set()
+        for n in g.nodes:
+            binds = [a for a, k in attr_writes(n, fi.selfname) if a == attr and k == "bind"]
+            via_call = any(attr in self.summary(t) or self.refreshes(t, attr, dep) for _, t in fi.calls.get(n.id, []) if t is not g_func)
+            if not binds and not via_call:
+                continue
+            write_nodes.add(n.id)
+            if n.stmt is None or not binds:
+                continue
+            co = {a for st in self._siblings(n.stmt) for a in self._stmt_attr_binds(st, fi.selfname)} - {attr}
+            for iff, branch in self._enclosing_ifs(g_func, n.stmt):
+                head = g.node_of(iff)
+                if head is None:
+                    continue
+                ok, _ = self._is_j2_guard(g_func, head, iff, attr, dep, co)
+                if ok:
+                    skip_label = "false" if branch == "body" else "true"
+                    for s_, lab in head.succ:
+                        if lab == skip_label:
+                            removed.add((head.id, s_.id))
+        if not write_nodes:
+            return False
+        from collections import deque
+        seen = {g.entry.id}
+        dq = deque([g.entry])
+        reach_exit = False
+        while dq:
+            x = dq.popleft()
+            if x is g.exit:
+                reach_exit = True
+                break
+            for s_, lab in x.succ:
+                if s_.id in seen or (x.id, s_.id) in removed or s_.id in write_nodes or lab == "exc":
+                    continue
+                seen.add(s_.id)
+                dq.append(s_)
+        memo[key] = not reach_exit
+        return memo[key]
 
     # -- J3: save / temporary write / restore ------------------------------------------
     def preserves(self, f, attr, _stack=None):
@@ -503,11 +552,27 @@ class StateAnalysis:
         st = node.stmt
         if node.kind == "if":
             return any(st.test is t for t in tests)
-        if isinstance(st, ast.Assign) and len(st.targets) == 1 and isinstance(st.targets[0], ast.Name):
-            name = st.targets[0].id
+        def only_guards(name, seen):
+            """every use of the once-bound local `name` is in a guard test, or in the definition of another such local"""
+            if name in seen:
+                return True
+            seen = seen | {name}
             uses = [x for x in ast.walk(f.node) if isinstance(x, ast.Name) and x.id == name and isinstance(x.ctx, ast.Load)]
             stores = [x for x in ast.walk(f.node) if isinstance(x, ast.Name) and x.id == name and isinstance(x.ctx, ast.Store)]
-            return bool(uses) and len(stores) == 1 and all(id(u) in in_test for u in uses)
+            if not uses or len(stores) != 1:
+                return False
+            for u in uses:
+                if id(u) in in_test:
+                    continue
+                cur = u
+                while cur is not None and not isinstance(cur, ast.stmt):
+                    cur = getattr(cur, "_parent", None)
+                if isinstance(cur, ast.Assign) and len(cur.targets) == 1 and isinstance(cur.targets[0], ast.Name) and only_guards(cur.targets[0].id, seen):
+                    continue
+                return False
+            return True
+        if isinstance(st, ast.Assign) and len(st.targets) == 1 and isinstance(st.targets[0], ast.Name):
+            return only_guards(st.targets[0].id, frozenset())
         return False
 
     def _enclosing_ifs(self, f, stmt):
@@ -522,7 +587,9 @@ class StateAnalysis:
         return out
 
     def _is_j2_guard(self, f, head, iff, attr, dep, co_written):
-        if not any(isinstance(c, ast.Compare) for c in ast.walk(iff.test)):
+        from .flow import expand
+
+        if not any(isinstance(c, ast.Compare) for c in ast.walk(expand(f.node, iff.test))):
             return False, "tests existence / type only, compares nothing"
         r = self.roots(f, head, iff.test)
         cache_side = ("attr", attr) in r or any(("attr", a) in r for a in co_written)
